@@ -213,6 +213,11 @@ package claim
 //@   assert [C06:xr-applied-after-binding] $o == xr && (claimBound || cmp.Equal(existing, proposed))
 //@   assert [C06,C08:existing-reference-reused] (old(cm.GetResourceReference()) != nil) ==> xr.GetName() == old(cm.GetResourceReference().Name)
 //@   update xrApplied = true
+// the claim's status is only ever merged into (through the filter that keeps XR machinery out) -
+// it is never replaced by a map built elsewhere
+//@ optional site builtin.mapupdate($m, $k, $v) as replace-claim-status
+//@   where $m == cm.Object && $k == "status"
+//@   assert [C07:claim-status-is-merged-into-through-the-machinery-filter-never-replaced] false
 //@ site (client.SubResourceWriter).Update(_, _, $o)
 //@   update statusUpdated = true
 // the status update replaces the in-memory claim by what the server stored (metadata and spec as
